@@ -489,7 +489,7 @@ def _run(ctx):
                     note_diff("signal_xyz:rotation", d)
                     ctx.case(("rotation", lmax, pa, k, improper))
                     ctx.count("rotation:" + ("improper" if improper else "proper"))
-                    if d > 1e-10:
+                    if d > 1e-8:
                         oracle_fail.append(dict(oracle="signal_xyz:rotation", lmax=lmax, pa=pa, improper=improper, diff=d,
                                                 R=gmat.tolist(), c=c.tolist(), r=r.tolist()))
                     # D orthogonal, norms invariant
@@ -512,7 +512,7 @@ def _run(ctx):
                     note_diff("sum_of_diracs:formula", fm)
                     ctx.case(("diracs-oracle", lmax, pa, k))
                     ctx.count("sum_of_diracs:oracle")
-                    if lin > 1e-12 or eq > 1e-10 or fm > 1e-12:
+                    if lin > 1e-12 or eq > 1e-8 or fm > 1e-12:
                         oracle_fail.append(dict(oracle="sum_of_diracs", lmax=lmax, pa=pa, linear=lin, equivariant=eq, formula=fm))
                 # broadcasting / empty shapes (docstring examples)
                 e1 = st.sum_of_diracs(torch.empty(1, 0, 2, 3), torch.empty(2, 0, 1))
